@@ -12,6 +12,10 @@ import (
 	"strings"
 
 	"github.com/llir/llvm/asm"
+	"github.com/llir/llvm/ir"
+	"github.com/llir/llvm/ir/enum"
+	"github.com/llir/llvm/ir/metadata"
+	"github.com/llir/llvm/ir/types"
 	"github.com/llir/llvm/verifhook"
 )
 
@@ -220,6 +224,27 @@ func runC20(c *config) {
 		}
 		o.Case("less", []string{hx(s), hx(t)}, []string{b2s(less(s, t))})
 		o.Stat("less.pairs.numeric")
+	}
+
+	// 5b. a constructed module: type definitions and comdats appended out of order
+	{
+		m := ir.NewModule()
+		m.NewTypeDef("b10", types.NewStruct(types.I32))
+		m.NewTypeDef("b9", types.NewStruct(types.I8))
+		m.ComdatDefs = append(m.ComdatDefs, &ir.ComdatDef{Name: "z", Kind: enum.SelectionKindAny}, &ir.ComdatDef{Name: "a", Kind: enum.SelectionKindAny})
+		m.NamedMetadataDefs["n10"] = &metadata.NamedDef{Name: "n10"}
+		m.NamedMetadataDefs["n9"] = &metadata.NamedDef{Name: "n9"}
+		ord := c20Orders(m.String())
+		if strings.Join(ord["type"], ",") != "b9,b10" || strings.Join(ord["comdat"], ",") != "a,z" {
+			o.Fail("constructed_module_order", "constructed_typedef_order", "a constructed module prints type definitions / comdats in insertion order, not in natural order", map[string]interface{}{"printed": m.String()})
+		} else {
+			o.Pass("constructed_module_order")
+		}
+		if strings.Join(ord["named"], ",") != "n9,n10" {
+			o.Fail("constructed_module_order", "", "named metadata of a constructed module not in natural order", map[string]interface{}{"printed": m.String()})
+		} else {
+			o.Pass("constructed_module_order")
+		}
 	}
 
 	// 6. modules: permutations of the top-level definitions
